@@ -3,7 +3,9 @@ package main
 var props = map[string]propSpec{
 	"C01": {Level: "model_checking", Harnesses: []harnessSpec{
 		{Name: "c01", Quick: 60, Thorough: 900},
+		{Name: "agentw", Quick: 60, Thorough: 900, Args: []string{"-prop", "C01"}},
 	}, Assume: []string{
+		"agent side (harness agentw): the agent program between a scripted proxy and a scripted backend with 2-3 requests in flight; delay-bounded schedules (bound 2, thorough 3)",
 		"sequentially consistent interleavings at synchronisation operations; unsynchronised access only to declared non-thread-safe objects (lru.Cache, rand.Rand) is detected by the vector-clock race detector",
 		"K<=2 (quick) / K<=3 (thorough) concurrent clients, P<=2 pollers; preemption bound as reported per scenario",
 		"the agent side of the wire protocol is played by harness threads that follow utils.go's request/response format",
@@ -25,5 +27,36 @@ var props = map[string]propSpec{
 	}, Assume: []string{
 		"handler scripts follow httputil.ReverseProxy's use of http.ResponseWriter; zero-length writes are excluded because ReverseProxy's copy loop never issues them",
 		"sequentially consistent interleavings at synchronisation operations",
+	}},
+	"C04": {Level: "model_checking", Harnesses: []harnessSpec{
+		{Name: "agentw", Quick: 120, Thorough: 1200, Args: []string{"-prop", "C04"}},
+		{Name: "c01", Quick: 60, Thorough: 900, Args: []string{"-prop", "C04"}},
+	}, Assume: []string{
+		"agent side: the agent program (main()) against a scripted proxy; all pending-list histories up to depth 2 (quick) / 3 (thorough) over {[],[a],[b],[a,b],[b,a],[a,a],[a,b,c],error}, fetch outcomes {ok,404,503x3,503 then ok,transport error}, dedup window histories with 999/1000 filler ids; schedules: delay-bounded (every departure from the default scheduler costs one), bound 2 / 3",
+		"proxy side: harness c01 (all interleavings up to the preemption bound) checks that no request id is reported in two pending-list replies",
+	}},
+	"C07": {Level: "fault_enumeration", Harnesses: []harnessSpec{
+		{Name: "agentw", Quick: 90, Thorough: 1200, Args: []string{"-prop", "C07"}},
+	}, Assume: []string{
+		"one fault per run out of 17 kinds (pending list, fetch, backend connect/headers/body, upload) at three positions within a stream of healthy requests plus a probe request afterwards; schedules delay-bounded (bound 1)",
+		"websocket-shim input faults are enumerated by the C12 check (harness shim), which also applies the no-crash oracle",
+	}},
+	"C08": {Level: "model_checking", Harnesses: []harnessSpec{
+		{Name: "agentw", Quick: 60, Thorough: 300, Args: []string{"-prop", "C08"}},
+		{Name: "backoff", NoRewrite: false, Quick: 60, Thorough: 300},
+	}, Assume: []string{
+		"loop: every fail/succeed pattern of list calls up to length 6 (quick) / 9 (thorough) plus long runs through the cap, with the jitter source pinned to {0, 0.5, 1-2^-53}, on the virtual clock; the delay after the j-th consecutive failure must be within +-10% of min(2^(j-1) ms, 3 s) and > 0",
+		"function: ExponentialBackoffDuration over 0..65536, every 2^k-1, 2^k, 2^k+1 (k<=64) and the named values, with the same three jitter answers; the full 2^64 range is covered by representatives at every power-of-two boundary, not enumerated",
+	}},
+	"C09": {Level: "exploration", Harnesses: []harnessSpec{
+		{Name: "agentw", Quick: 90, Thorough: 600, Args: []string{"-prop", "C09"}},
+	}, Assume: []string{
+		"requests are pushed through the agent program's real handler chain (flags parsed by main()); the websocket dial and the backend round trip are recorded by in-memory fakes of gorilla/websocket and of the reverse proxy's transport",
+	}},
+	"C20": {Level: "model_checking", Harnesses: []harnessSpec{
+		{Name: "agentw", Quick: 90, Thorough: 900, Args: []string{"-prop", "C20"}},
+	}, Assume: []string{
+		"virtual clock: time passes only when no thread can run; 'promptly' and 'when the period ends' are decided in virtual time",
+		"health histories up to length 5 (quick) / 7 (thorough) x thresholds {0,1,2,3}; shutdown: both signals x grace {0,2s,5s,10s} x backend latency {0,5s}, signal delivered at every point reachable with 1 (quick) / 2 (thorough) scheduler deviations",
 	}},
 }
